@@ -105,7 +105,22 @@ def gen_doc(rng, crlf=False):
         for i, p in enumerate(params):
             if i:
                 head.append(", ")
-            head += [("bind", p, scope, None), '="%s@%s"' % (p, scope)]
+            # a default value is evaluated in the *enclosing* scope when the def statement runs: a name read there denotes
+            # the outer variable even when the function itself binds that name (as a parameter or a local)
+            dn = rng.choice(names)
+            outer = None
+            for entry in reversed(parent_chain):
+                if dn in entry[1]:
+                    if len(entry) <= 2 or dn in entry[2]:
+                        outer = entry[0]
+                    break
+            if outer is not None and rng.random() < 0.5:
+                d.nuse += 1
+                uid2 = d.nuse
+                uses[uid2] = {"name": dn, "scope": outer, "executed": True}
+                head += [("bind", p, scope, None), '=[emit("U", %d, ' % uid2, ("use", dn, outer, uid2), '), "%s@%s"][1]' % (p, scope)]
+            else:
+                head += [("bind", p, scope, None), '="%s@%s"' % (p, scope)]
         head.append("):")
         parent_chain[-1][1].add(fname)
         d.add(indent, head)
@@ -163,7 +178,20 @@ def gen_doc(rng, crlf=False):
             d.nuse += 1
             uid = d.nuse
             uses[uid] = {"name": n, "scope": ls, "executed": True}
-            d.add(indent + 1, ["_l%d = (lambda " % uid, ("bind", n, ls, None), '="%s@%s": emit("U", %d, ' % (n, ls, uid), ("use", n, ls, uid), "))()"])
+            outer = None
+            for entry in reversed(chain):
+                if n in entry[1]:
+                    if len(entry) <= 2 or n in entry[2]:
+                        outer = entry[0]
+                    break
+            if outer is not None and rng.random() < 0.5:
+                d.nuse += 1
+                uid2 = d.nuse
+                uses[uid2] = {"name": n, "scope": outer, "executed": True}
+                d.add(indent + 1, ["_l%d = (lambda " % uid, ("bind", n, ls, None), '=[emit("U", %d, ' % uid2, ("use", n, outer, uid2), '), "%s@%s"][1]: emit("U", %d, ' % (n, ls, uid),
+                                   ("use", n, ls, uid), "))()"])
+            else:
+                d.add(indent + 1, ["_l%d = (lambda " % uid, ("bind", n, ls, None), '="%s@%s": emit("U", %d, ' % (n, ls, uid), ("use", n, ls, uid), "))()"])
         d.add(indent + 1, ["pass"])
         # call it
         d.add(indent, [("use", fname, parent_chain[-1][0], None), "()"])
